@@ -42,6 +42,10 @@ CLAIMED = {
   "reachability/dominance on the CFG of NodeDatabase.commit/Commit and AccountDB.Commit; who-may-call for the GC entry points; struct-field coverage of the leaf callback; result-discipline (project-specific errcheck) on the commit cone",
   "Write-ordering and ownership facts decided structurally: commit is a post-order recursion (children, error-checked, before the node's Put; flush after Put); uncache only after the final successful batch write; no production caller of Dereference/Cap and no Delete in the state packages; the leaf callback references every hash-valued Account field unconditionally of the others; storage trie committed before the account record; state then node database committed before success/head update; commit/batch errors consumed on the insertBlock cone. Physical crash behaviour and LevelDB's own guarantees are not decided. A non-recursive rewrite of commit is reported as undecidable (fails closed).",
   "Trusted: LevelDB batch atomicity/durability; go/ssa; VTA call graph for the who-may-call rule."),
+ "C06": ("3/C06",
+  "classification table over every balance-changing call site with mechanical shape checks per class (same-SSA-value debit/credit pairing); guarded-by comparison with operand roles (fresh GetBalance of the same address vs the debited amount); ordering rule for the funds pre-check; value-origin scan for floating point",
+  "Every production call site of AddBalance/SubBalance/SetBalance/AddFT/SubFT/SetFT/Transfer outside storage/account (45 sites in 20 functions) is classified (move, lock, scheduled credit, genesis, touch, selfdestruct, state override) and its class shape re-checked; every debit is guarded by a fresh balance comparison of the same address and amount (or is the EVM transfer behind CanTransfer in every frame entry); bottom-level subtraction is guarded; no amount derives from a float except the reviewed stake conversions. The sums themselves are not decided.",
+  "Trusted: balances change only through the listed methods (and EVM SSTORE into the bound token contract). Recorded defects F7 (10 RPG burn in minerNodeExecutor) and F8 (unguarded gas-fee debit in contractExecutor.Execute) are printed as KNOWN-FINDING."),
 }
 
 NOT_YET = {}
